@@ -87,7 +87,9 @@ def handle (inp out : Sexp) : CaseResult :=
           else match bodyFinishes with
             | none => (true, "body-does-not-finish")
             | some T =>
-              match run o.body (FUEL * (n + 1)) 0 zeroMem [] with
+              -- enough for every terminating wrapped run of the generated bodies (inner loops ≤ 3 rounds),
+              -- small enough that a diverging output is diagnosed quickly
+              match run o.body (min (FUEL * (n + 1)) (16 * (T.length + (n + 1) * (p.body.length + 4)) + 100)) 0 zeroMem [] with
               | .done mf tr =>
                 (tr == .move c (Int.ofNat n) :: T && mf c == 0 &&
                   (!straightLine p.body ||
